@@ -28,8 +28,8 @@ type c03bStep struct {
 }
 
 type c03bCase struct {
-	Enabled []string   `json:"enabled"` // schemes enabled on the builder
-	Steps   []c03bStep `json:"steps"`   // authenticating envelopes sent one after the other (the first answered one ends the handshake)
+	Enabled []string   `json:"enabled"`         // schemes enabled on the builder
+	Steps   []c03bStep `json:"steps"`           // authenticating envelopes sent one after the other (the first answered one ends the handshake)
 	Other   []string   `json:"other,omitempty"` // schemes enabled on a second builder of the same process while the first server is serving (it is never built or started)
 }
 
